@@ -15,7 +15,23 @@
           and that no live application lists; the final-state predicates are then judged without these allocations
      1451 (known finding C14-concurrent-ledger-drift) queue ledger / node allocation list / root-vs-nodes / drained
           disagreement (1412, 1413, 1415, 1416 are folded into this kind)
+     1420 (correspondence) a SPLIT critical section that is not in the reviewed baseline (corpus/conc_split_baseline.json):
+          inside one invocation of a function the lock of an object was released and taken again in write mode; the
+          hypothesis of the atomicity theorem (Conc/AtomicProofs.v: no split section => serialisable) is not established
+          for that function.  The targeted workloads (ledger, first use) run with the window between the two sections
+          widened; a failing input shows up as 1412 / 1421.. of the same or another case.
+     1421 tracked usage of a user on a leaf queue differs from the sum over the user's applications there, or an
+          application with usage is not tracked (predicate of C05 at core level, Oracles/CoreC05.v kind 501)
+     1422 tracked usage of a user on a parent path differs from the sum over the tracked children (kind 502)
+     1423 negative tracked usage, running-application set of a user on a leaf queue wrong, or (first-use workload)
+          tracked usage of a group differs from the sum over the applications of its users
+     1424 a queue that only grows through the scheduler's limit check is above its configured maximum
+     1452 (known finding C14-ugm-tracker-removed-in-use) a run in which a user tracker can become empty (cc_stable_users =
+          false): tracked usage disagrees with the applications (1421-1423) and no tracked usage is ABOVE the sum over the
+          applications (usage was lost, not invented): the release of a user's last allocation removed the tracker while
+          another goroutine was booking an allocation of the same user on it
      1490 (correspondence) the harness' own cycle search and the Coq check disagree
+     1491 (correspondence) the critical-section monitor of the lock wrapper was not available in the run
    The predicates on the final state are the ones the sequential theorems C01/C03 are stated with
    (Core/Ledger.v); here they are validation only. *)
 From Coq Require Import List ZArith NArith Bool FMapPositive.
@@ -37,7 +53,112 @@ Record conc_case := mkConc {
   cc_blocked : N;              (* driver goroutines still running at the watchdog deadline *)
   cc_godeadlock : N;           (* go-deadlock reports *)
   cc_panics : N;               (* recovered panics + fatal errors *)
-  cc_races : N }.              (* race detector reports *)
+  cc_races : N;                (* race detector reports *)
+  cc_splits : list N;          (* split critical sections seen in the run: id of the baseline entry, >= 1000 = not in the baseline *)
+  cc_baseline : list N;        (* input fact: ids of the reviewed split sections (corpus/conc_split_baseline.json) *)
+  cc_splitmon : bool;          (* the critical-section monitor was available *)
+  cc_usergroups : list (N * N);(* input fact (first-use workload): (user, group every application of the user is tracked under) *)
+  cc_maxstrict : list N;       (* input fact: queues whose usage only grows through the scheduler's limit check *)
+  cc_stable_users : bool }.    (* input fact: no user tracker can become empty during the run (nothing is released, or every
+                                  user holds an allocation that is never released) *)
+
+(* the hypothesis of the atomicity theorem as far as the run can establish it: no split critical section beyond the
+   reviewed ones *)
+Definition split_ok (c : conc_case) : bool := forallb (fun s => memN s (cc_baseline c)) (cc_splits c).
+
+(* ---- user / group manager after quiescence ----
+   user_entries .. ugm_parent_ok are the predicates of the core-level C05 oracle (Oracles/CoreC05.v, kinds 501 / 502),
+   repeated here word for word so that this checker does not depend on the core model files *)
+Definition user_entries (s : ostate) : list ougm := filter (fun u => negb (u_group u)) (s_ugm s).
+Definition user_apps_in (s : ostate) (user q : N) : list oapp :=
+  filter (fun a => (ap_user a =? user) && (ap_queue a =? q)) (s_apps s).
+Definition is_leaf_path (s : ostate) (q : N) : bool :=
+  match find_queue s q with Some oq => q_leaf oq | None => false end.
+Definition ugm_leaf_ok (s : ostate) (u : ougm) : bool :=
+  negb (is_leaf_path s (u_path u)) ||
+  let apps := user_apps_in s (u_who u) (u_path u) in
+  res_is_sum (u_usage u) (map ap_allocated apps ++ map ap_phalloc apps).
+Definition app_tracked (s : ostate) (a : oapp) : bool :=
+  (all_zero (ap_allocated a) && all_zero (ap_phalloc a)) ||
+  existsb (fun u => (u_who u =? ap_user a) && (u_path u =? ap_queue a)) (user_entries s).
+Definition ugm_parent_ok (s : ostate) (u : ougm) : bool :=
+  is_leaf_path s (u_path u) ||
+  match find_queue s (u_path u) with
+  | None => true
+  | Some _ =>
+      let kids := filter (fun c => (u_who c =? u_who u) &&
+                                    match find_queue s (u_path c) with Some qc => q_parent qc =? u_path u | None => false end)
+                         (user_entries s) in
+      res_is_sum (u_usage u) (map u_usage kids)
+  end.
+
+Definition app_usage (a : oapp) : list res := [ap_allocated a; ap_phalloc a].
+Definition app_has_usage (a : oapp) : bool := negb (all_zero (ap_allocated a) && all_zero (ap_phalloc a)).
+
+(* running-application set of a user entry on a leaf queue: every application of the user in the queue that has usage
+   is listed, everything listed is a live application of the user in that queue *)
+Definition ugm_running_ok (s : ostate) (u : ougm) : bool :=
+  negb (is_leaf_path s (u_path u)) ||
+  let apps := user_apps_in s (u_who u) (u_path u) in
+  forallb (fun a => negb (app_has_usage a) || memN (ap_id a) (u_running u)) apps &&
+  forallb (fun id => existsb (fun a => ap_id a =? id) apps) (u_running u).
+
+Definition group_of (ug : list (N * N)) (user : N) : N :=
+  match find (fun p => fst p =? user) ug with Some p => snd p | None => 0 end.
+Definition group_entries (s : ostate) : list ougm := filter u_group (s_ugm s).
+Definition group_apps_in (s : ostate) (ug : list (N * N)) (g q : N) : list oapp :=
+  filter (fun a => (group_of ug (ap_user a) =? g) && (ap_queue a =? q)) (s_apps s).
+Definition group_leaf_ok (s : ostate) (ug : list (N * N)) (e : ougm) : bool :=
+  negb (is_leaf_path s (u_path e)) ||
+  res_is_sum (u_usage e) (flat_map app_usage (group_apps_in s ug (u_who e) (u_path e))).
+Definition group_tracked (s : ostate) (ug : list (N * N)) (a : oapp) : bool :=
+  negb (app_has_usage a) || (group_of ug (ap_user a) =? 0) ||
+  existsb (fun e => (u_who e =? group_of ug (ap_user a)) && (u_path e =? ap_queue a)) (group_entries s).
+Definition group_parent_ok (s : ostate) (e : ougm) : bool :=
+  is_leaf_path s (u_path e) ||
+  match find_queue s (u_path e) with
+  | None => true
+  | Some _ =>
+      let kids := filter (fun c => (u_who c =? u_who e) &&
+                                    match find_queue s (u_path c) with Some qc => q_parent qc =? u_path e | None => false end)
+                         (group_entries s) in
+      res_is_sum (u_usage e) (map u_usage kids)
+  end.
+Definition groups_ok (s : ostate) (ug : list (N * N)) : bool :=
+  match ug with
+  | [] => true
+  | _ => forallb (group_leaf_ok s ug) (group_entries s) && forallb (group_tracked s ug) (s_apps s) &&
+         forallb (group_parent_ok s) (group_entries s)
+  end.
+
+Definition ugm_kinds (s : ostate) (ug : list (N * N)) : list N :=
+  (if forallb (ugm_leaf_ok s) (user_entries s) && forallb (app_tracked s) (s_apps s) then [] else [1421]) ++
+  (if forallb (ugm_parent_ok s) (user_entries s) then [] else [1422]) ++
+  (if forallb (fun u => res_nonneg (u_usage u)) (s_ugm s) && forallb (ugm_running_ok s) (user_entries s) && groups_ok s ug
+   then [] else [1423]).
+
+(* window of known finding C14-ugm-tracker-removed-in-use: usage was lost, never invented: on every leaf queue the
+   tracked usage of a user (of a group, when the mapping is known) is at most the sum over the applications, per type *)
+Definition res_le_sum (r : res) (l : list res) : bool :=
+  forallb (fun k => (getz r k <=? sumz l k)%Z) (keys r ++ res_keys l).
+Definition ugm_not_above (s : ostate) (ug : list (N * N)) : bool :=
+  forallb (fun u => negb (is_leaf_path s (u_path u)) ||
+                    let apps := user_apps_in s (u_who u) (u_path u) in
+                    res_le_sum (u_usage u) (map ap_allocated apps ++ map ap_phalloc apps)) (user_entries s) &&
+  match ug with
+  | [] => true
+  | _ => forallb (fun e => negb (is_leaf_path s (u_path e)) ||
+                           res_le_sum (u_usage e) (flat_map app_usage (group_apps_in s ug (u_who e) (u_path e)))) (group_entries s)
+  end.
+
+(* a queue whose usage only grows through TryIncAllocatedResource stays within its maximum (types the maximum defines) *)
+Definition within_max (q : oqueue) : bool :=
+  match q_max q with
+  | None => true
+  | Some m => forallb (fun kv => (getz (q_alloc q) (fst kv) <=? snd kv)%Z) m
+  end.
+Definition max_kinds (s : ostate) (strict : list N) : list N :=
+  if forallb (fun q => negb (memN (q_id q) strict) || within_max q) (s_queues s) then [] else [1424].
 
 Definition is_single (c : conc_case) (r : role) : bool := existsb (N.eqb r) (cc_singles c).
 Definition cert_table (l : list (lock * nat)) : PositiveMap.t nat :=
@@ -103,7 +224,14 @@ Definition drift (s : ostate) : bool :=
           calm workloads: excuses 1412 / 1413 (1402, 1411, 1414 stay strict);
           full workloads: excuses all five kinds.
    A run without trigger operation is judged strictly whatever its class. *)
-Definition strict_kinds (s : ostate) : list N :=
+Definition ugm_strict (stable : bool) (s : ostate) (ug : list (N * N)) : list N :=
+  if stable then ugm_kinds s ug else if ugm_not_above s ug then [] else ugm_kinds s ug.
+Definition ugm_known (stable : bool) (s : ostate) (ug : list (N * N)) : list N :=
+  if stable then [] else
+  match ugm_kinds s ug with [] => [] | _ => if ugm_not_above s ug then [1452] else [] end.
+
+Definition strict_kinds (s : ostate) (ug : list (N * N)) (mx : list N) (stable : bool) : list N :=
+  ugm_strict stable s ug ++ max_kinds s mx ++
   (if nodes_ledger_ok (strip_state s) then [] else [1402]) ++
   (if forallb app_books_ok (s_apps s) then [] else [1411]) ++
   (if forallb (queue_books_ok s) (s_queues s) then [] else [1412]) ++
@@ -116,9 +244,9 @@ Definition excused (class : N) (k : N) : bool :=
   else if class =? 1 then (k =? 1412) || (k =? 1413)
   else false.
 
-Definition final_state_check (class : N) (trigger : bool) (s : ostate) : list N :=
-  let ks := strict_kinds s in
-  (if has_unbound s then [1450] else []) ++
+Definition final_state_check (class : N) (trigger : bool) (s : ostate) (ug : list (N * N)) (mx : list N) (stable : bool) : list N :=
+  let ks := strict_kinds s ug mx stable in
+  (if has_unbound s then [1450] else []) ++ ugm_known stable s ug ++
   (if trigger
    then (if existsb (excused class) ks then [1451] else []) ++ filter (fun k => negb (excused class k)) ks
    else ks).
@@ -132,7 +260,9 @@ Definition cycle_report_ok (c : conc_case) : bool :=
 Definition conc_check_case (c : conc_case) : list N :=
   (if lock_order_ok c then [] else [1401]) ++
   (if cycle_report_ok c then [] else [1490]) ++
-  (if cc_observed c then final_state_check (cc_class c) (cc_trigger c) (cc_final c) else []) ++
+  (if split_ok c then [] else [1420]) ++
+  (if cc_splitmon c then [] else [1491]) ++
+  (if cc_observed c then final_state_check (cc_class c) (cc_trigger c) (cc_final c) (cc_usergroups c) (cc_maxstrict c) (cc_stable_users c) else []) ++
   (if 0 <? cc_blocked c then [1403] else []) ++
   (if 0 <? cc_godeadlock c then [1404] else []) ++
   (if 0 <? cc_panics c then [1405] else []) ++
